@@ -298,8 +298,8 @@ def check_control(c, repo):
         c.check(no_other, f, k, 'no additional write', kind='ast', tag='no-extra-write')
     f = repo.func('pty_spawn:spawn._log_control')
     logs = [lk for lk in calls_in(f.node) if callee_last(lk) == '_log']
-    ok = len(logs) == 1 and is_const(logs[0].args[1], 'send') and is_name(logs[0].args[0], f.params[1])
-    c.check(ok, f, logs[0] if logs else None, "control bytes are logged with direction 'send'", kind='ast', tag='ctrl-direction')
+    ok, wit = log_control_ok(f)
+    c.check(ok, f, logs[0] if logs else None, "control bytes are logged with direction 'send'", witness=wit, kind='path', tag='ctrl-direction')
 
 
 MUTANTS = [
